@@ -27,6 +27,17 @@ structure RankOK (cfg : Cfg κ) (b : Builder κ (List Bytes) F64.Bits) : Prop wh
   rInj : ∀ t bt, (t, bt) ∈ b → ∀ x y, x ∈ bt.rows → y ∈ bt.rows → cfg.rankR x = cfg.rankR y → x = y
   cInj : ∀ t bt, (t, bt) ∈ b → ∀ x y, x ∈ bt.cols → y ∈ bt.cols → cfg.rankC x = cfg.rankC y → x = y
 
+/-- positions in a sorted list of distinct keys — what the harness passes — are injective -/
+theorem rankOK_of_injective (cfg : Cfg κ) (b : Builder κ (List Bytes) F64.Bits)
+    (hT : ∀ x y, cfg.rankT x = cfg.rankT y → x = y) (hR : ∀ x y, cfg.rankR x = cfg.rankR y → x = y)
+    (hC : ∀ x y, cfg.rankC x = cfg.rankC y → x = y) : RankOK cfg b :=
+  ⟨fun x y _ _ h => hT x y h, fun _ _ _ x y _ _ h => hR x y h, fun _ _ _ x y _ _ h => hC x y h⟩
+
+example (orc : Oracles) (b : Builder Nat (List Bytes) F64.Bits) :
+    RankOK ({ rankT := id, rankR := id, rankC := fun n => n + 1, unitOf := fun _ => [], assume := fun _ => .nothing,
+              fieldNames := [], orc := orc } : Cfg Nat) b :=
+  rankOK_of_injective _ _ (fun _ _ h => h) (fun _ _ h => h) (fun _ _ h => Nat.succ.inj h)
+
 theorem validSched_default : ValidSched Sched.default :=
   ⟨fun _ l => List.Perm.refl l, fun _ l => List.Perm.refl l⟩
 
